@@ -915,7 +915,10 @@ impl<T: Serialize + for<'de> Deserialize<'de> + Clone + PartialEq + Send + Sync 
     async fn recover_from_snapshot(&self, stats: &mut RecoveryStats) -> Result<()> {
         let snapshots = self.find_snapshots()?;
 
-        for snapshot_path in snapshots.iter().rev() {
+        // find_snapshots() lists the newest snapshot first; older ones are fallbacks.
+        // (Starting from the oldest one loses everything the newer checkpoints
+        // covered, because the log files they made redundant are already deleted.)
+        for snapshot_path in snapshots.iter() {
             match self.load_snapshot(snapshot_path).await {
                 Ok((header, loaded_state)) => {
                     // Load state
